@@ -918,6 +918,21 @@ def orc_calls(case):
     if not np.array_equal(r1.dissimilarities, first, equal_nan=True) or not _same_labels(r1.pattern_descriptors['cond'], first_labels):
         return (f"{case['method']}: the result held by the caller changed while the library was called again: "
                 f'{_fmt(r1.dissimilarities[0])}, it was {_fmt(first[0])}')
+    # the caller scribbles over everything the library has handed out so far -- the arrays of the first result and the matrices
+    # of the public helper that expands per-condition terms to pairs (a fresh object per call by its contract) -- and calls again
+    if case.get('scribble', True):
+        from rsatoolbox.util.matrix import row_col_indicator_rdm
+        _unbalanced(dsA, case, nA).dissimilarities[...] = -7.0        # (a further result, not the one held for the later checks)
+        n_c = len(first_labels)
+        for mat in row_col_indicator_rdm(n_c):
+            try:
+                mat -= 3
+            except Exception:       # (a sparse / read-only return value cannot be scribbled on: nothing to test)
+                pass
+        r3 = _unbalanced(dsA, case, nA)
+        if not np.array_equal(r3.dissimilarities, first, equal_nan=True):
+            return (f"{case['method']}/{weighting}: after the caller overwrote the arrays of an earlier result and of "
+                    f'row_col_indicator_rdm({n_c}), the same call gives {_fmt(r3.dissimilarities[0])}, it gave {_fmt(first[0])}')
     # single-pair helper on the first two conditions, twice
     ra = [i for i in range(dA['m']) if dA['cond'][i] == 0]
     rb = [i for i in range(dA['m']) if dA['cond'][i] == 1]
